@@ -436,7 +436,7 @@ theorem multiNsAux_distinct (target : Name) :
   | p :: ps, acc, out, hd, ht, h => by
     unfold multiNsAux at h
     cases hv : p.val with
-    | null => rw [hv] at h; cases h
+    | null => rw [hv] at h; exact multiNsAux_distinct target ps acc out hd ht h
     | sc _ => rw [hv] at h; cases h
     | ref q =>
       rw [hv] at h
